@@ -26,6 +26,7 @@ impl Xerr {
     #[verifier::external_body] pub fn vec_stack_underflow() -> Xerr { unimplemented!() }
     #[verifier::external_body] pub fn map_stack_underflow() -> Xerr { unimplemented!() }
     #[verifier::external_body] pub fn map_missing_key() -> Xerr { unimplemented!() }
+    #[verifier::external_body] pub fn unbalanced_map_builder() -> Xerr { unimplemented!() }
 }
 pub assume_specification [ <isize>::unsigned_abs ] (a: isize) -> (r: usize)
     ensures r == (if a < 0 { -(a as int) } else { a as int });
@@ -76,6 +77,8 @@ impl State {
 //@use coll.fns ::core_word_length
 //@use coll.fns ::vec_collect_till_ptr
 //@use coll.fns ::vec_builder_end
+//@use coll.fns ::map_collect_till_ptr
+//@use coll.fns ::map_builder_end
 //@use coll.fns ::core_word_collect
 
 } // verus!
